@@ -78,31 +78,35 @@ fn do_write(log: &mut Log, d: &str, recs: &[Rec], quoted: bool) -> Option<Vec<u8
     out
 }
 
+fn read_items<R: std::io::Read>(rd: &mut Reader<R>) -> Vec<Value> {
+    let mut items = vec![];
+    for res in rd.records() {
+        match res {
+            Ok(rec) => {
+                let ph: Option<u8> = rec.phase().clone().try_into().unwrap();
+                let attrs: Vec<Value> = rec
+                    .attributes()
+                    .iter_all()
+                    .map(|(k, vs)| json!([bytes(k.as_bytes()), Value::Array(vs.iter().map(|v| bytes(v.as_bytes())).collect())]))
+                    .collect();
+                items.push(json!({"ok": 1,
+                    "seqname": bytes(rec.seqname().as_bytes()), "source": bytes(rec.source().as_bytes()),
+                    "ftype": bytes(rec.feature_type().as_bytes()),
+                    "start": dec(*rec.start()), "end": dec(*rec.end()),
+                    "score": bytes(rec_score(&rec).as_bytes()), "strand": bytes(rec_strand(&rec).as_bytes()),
+                    "phase": ph.map(|p| p as i64).unwrap_or(-1),
+                    "attrs": Value::Array(attrs)}));
+            }
+            Err(_) => items.push(json!({"ok": 0})),
+        }
+    }
+    items
+}
+
 fn do_read(log: &mut Log, d: &str, data: &[u8], mode: &str, fault: &str) {
     log.call("read", mode_json(mode, data, fault), || {
         let mut rd = Reader::new(data, gtype(d));
-        let mut items = vec![];
-        for res in rd.records() {
-            match res {
-                Ok(rec) => {
-                    let ph: Option<u8> = rec.phase().clone().try_into().unwrap();
-                    let attrs: Vec<Value> = rec
-                        .attributes()
-                        .iter_all()
-                        .map(|(k, vs)| json!([bytes(k.as_bytes()), Value::Array(vs.iter().map(|v| bytes(v.as_bytes())).collect())]))
-                        .collect();
-                    items.push(json!({"ok": 1,
-                        "seqname": bytes(rec.seqname().as_bytes()), "source": bytes(rec.source().as_bytes()),
-                        "ftype": bytes(rec.feature_type().as_bytes()),
-                        "start": dec(*rec.start()), "end": dec(*rec.end()),
-                        "score": bytes(rec_score(&rec).as_bytes()), "strand": bytes(rec_strand(&rec).as_bytes()),
-                        "phase": ph.map(|p| p as i64).unwrap_or(-1),
-                        "attrs": Value::Array(attrs)}));
-                }
-                Err(_) => items.push(json!({"ok": 0})),
-            }
-        }
-        json!({"recs": Value::Array(items)})
+        json!({"recs": Value::Array(read_items(&mut rd))})
     });
 }
 
@@ -173,7 +177,14 @@ fn rand_rec(rng: &mut Rng, d: &str, log: &mut Log) -> Rec {
             0 | 1 => 1,
             _ => rng.range(2, 4) as usize,
         };
-        let vs: Vec<Vec<u8>> = (0..nv).map(|_| atom(rng, d, 6)).collect();
+        let mut vs: Vec<Vec<u8>> = (0..nv).map(|_| atom(rng, d, 6)).collect();
+        if rng.chance(1, 6) {
+            // values that look like URL escapes must come back verbatim (the writer does not encode)
+            let esc: &[&[u8]] = &[b"%3B", b"%2C", b"%25", b"%41", b"a%3Db", b"%09x", b"100%", b"%zz", b"%2"];
+            let i = rng.below(nv as u64) as usize;
+            vs[i] = rng.pick(esc).to_vec();
+            log.oblige("gff_percent_escape_like_value");
+        }
         if nv > 1 {
             log.oblige("multi_valued");
             if vs.iter().any(|v| vs.iter().filter(|w| *w == v).count() > 1) {
@@ -262,6 +273,51 @@ pub fn drive(log: &mut Log) {
             None => continue,
         };
         do_read(log, d, &data, "rt", "none");
+    }
+
+    // (a3) the file based API: the abstract state of a path is the file content. Write R1 with
+    // Writer::to_file, read it with Reader::from_file, write a SHORTER R2 to the same path, read:
+    // exactly R2; then an empty list, then a longer one.
+    for _ in 0..log.opts.n(60, 600) {
+        case += 1;
+        if !log.mine(case) {
+            continue;
+        }
+        let mut rng = Rng::new(seed, 132, case);
+        let d = DIALECTS[(case % 3) as usize];
+        if !log.begin("file", json!({"dialect": d})) {
+            continue;
+        }
+        let dir = std::path::Path::new(&log.opts.out).parent().map(|p| p.to_path_buf()).unwrap_or_default();
+        let path = dir.join(format!("gff-{}-{}-{}.tmp", log.opts.shard, seed, case));
+        let r1: Vec<Rec> = (0..rng.range(3, 5)).map(|_| rand_rec(&mut rng, d, log)).collect();
+        let r2: Vec<Rec> = (0..rng.range(1, 2)).map(|_| rand_rec(&mut rng, d, log)).collect();
+        let r4: Vec<Rec> = (0..rng.range(2, 4)).map(|_| rand_rec(&mut rng, d, log)).collect();
+        for (step, recs) in [r1, r2, vec![], r4].iter().enumerate() {
+            log.call("write_file", json!({"recs": Value::Array(recs.iter().map(rec_json).collect()), "q": 0, "pid": 1}), || {
+                let mut errs = 0;
+                match Writer::to_file(&path, gtype(d)) {
+                    Ok(mut w) => {
+                        for r in recs {
+                            if w.write(&to_record(r)).is_err() {
+                                errs += 1;
+                            }
+                        }
+                    }
+                    Err(_) => errs = -1,
+                }
+                let content = std::fs::read(&path).unwrap_or_default();
+                json!({"bytes": bytes(&content), "errs": errs})
+            });
+            log.call("read_file", json!({"pid": 1}), || match Reader::from_file(&path, gtype(d)) {
+                Ok(mut rd) => json!({"recs": Value::Array(read_items(&mut rd)), "open": 1}),
+                Err(_) => json!({"recs": [], "open": 0}),
+            });
+            if step == 1 {
+                log.oblige("gff_file_rewrite_shorter");
+            }
+        }
+        let _ = std::fs::remove_file(&path);
     }
 
     // (b) the attribute column alone: every string over a small alphabet (delimiters of all
